@@ -397,7 +397,11 @@ impl<Aux> Vm<'_, Aux> {
                     })?;
                 }
                 Instruction::SetProperty => {
-                    let [key, mut instance, value] = self.runtime_data.value_stack.pop_n::<3>();
+                    // the operands stay on the stack (= reachable) until the table has been
+                    // updated: growing the table allocates and may trigger a collection
+                    let key = self.runtime_data.value_stack.peek_last(0);
+                    let mut instance = self.runtime_data.value_stack.peek_last(1);
+                    let value = self.runtime_data.value_stack.peek_last(2);
                     let table = get_table_mut(&mut instance).map_err(|err| {
                         payload_to_error(err, src_ptr, &self.runtime_data.call_stack)
                     })?;
@@ -410,6 +414,7 @@ impl<Aux> Vm<'_, Aux> {
                         .map_err(|err| {
                             payload_to_error(err, src_ptr, &self.runtime_data.call_stack)
                         })?;
+                    self.runtime_data.value_stack.pop_n::<3>();
                 }
                 Instruction::BeginForEach => {
                     instr_execution::begin_for_each(self, &program.bytecode, instr_ptr).map_err(
@@ -529,8 +534,7 @@ impl<Aux> Vm<'_, Aux> {
                         .push(val)
                         .map_err(|_| ExecutionErrorPayload::Stackoverflow)
                         .map_err(|err| {
-                            // free the object on Stackoverflow
-                            self.runtime_data.free_object(obj.0);
+                            // the unreferenced object is reclaimed by the next collection
                             payload_to_error(err, src_ptr, &self.runtime_data.call_stack)
                         })?;
                 }
@@ -551,8 +555,7 @@ impl<Aux> Vm<'_, Aux> {
                         .push(val)
                         .map_err(|_| ExecutionErrorPayload::Stackoverflow)
                         .map_err(|err| {
-                            // free the object on Stackoverflow
-                            self.runtime_data.free_object(obj.0);
+                            // the unreferenced object is reclaimed by the next collection
                             payload_to_error(err, src_ptr, &self.runtime_data.call_stack)
                         })?;
                 }
@@ -573,8 +576,7 @@ impl<Aux> Vm<'_, Aux> {
                         .push(val)
                         .map_err(|_| ExecutionErrorPayload::Stackoverflow)
                         .map_err(|err| {
-                            // free the object on Stackoverflow
-                            self.runtime_data.free_object(obj.0);
+                            // the unreferenced object is reclaimed by the next collection
                             payload_to_error(err, src_ptr, &self.runtime_data.call_stack)
                         })?;
                 }
@@ -663,7 +665,9 @@ impl<Aux> Vm<'_, Aux> {
                     payload_to_error(err, src_ptr, &self.runtime_data.call_stack)
                 })?,
                 Instruction::NthRow => {
-                    let [i, mut instance] = self.runtime_data.value_stack.pop_n::<2>();
+                    // the table stays on the stack until the row has been built
+                    let i = self.runtime_data.value_stack.peek_last(0);
+                    let mut instance = self.runtime_data.value_stack.peek_last(1);
                     let table = get_table_mut(&mut instance).map_err(|err| {
                         payload_to_error(err, src_ptr, &self.runtime_data.call_stack)
                     })?;
@@ -703,6 +707,7 @@ impl<Aux> Vm<'_, Aux> {
                         let v = self.init_string("value")?;
                         row_table.insert(Value::Object(k.0), key)?;
                         row_table.insert(Value::Object(v.0), value)?;
+                        self.runtime_data.value_stack.pop_n::<2>();
                         self.stack_push(Value::Object(row.0))?;
                         Ok(())
                     })()
@@ -711,14 +716,16 @@ impl<Aux> Vm<'_, Aux> {
                     })?;
                 }
                 Instruction::AppendTable => {
-                    let mut instance = self.stack_pop();
-                    let value = self.stack_pop();
+                    // the operands stay on the stack while the table may grow
+                    let mut instance = self.runtime_data.value_stack.peek_last(0);
+                    let value = self.runtime_data.value_stack.peek_last(1);
                     let table = get_table_mut(&mut instance).map_err(|err| {
                         payload_to_error(err, src_ptr, &self.runtime_data.call_stack)
                     })?;
                     table.append(value).map_err(|err| {
                         payload_to_error(err, src_ptr, &self.runtime_data.call_stack)
                     })?;
+                    self.runtime_data.value_stack.pop_n::<2>();
                 }
 
                 Instruction::PopTable => {
